@@ -14,6 +14,10 @@ ASSUMPTIONS = [
 ]
 TRUSTED = []
 EXPLORED_ONLY = [
+    "the public byte_len setter only re-declares the width: value and octets keep what they held until the next "
+    "assignment to `value` (judged a two-step resize protocol by design, not a defect: narrowing must be followed by a "
+    "new value anyway).  Modelled faithfully (Model/UtilHist.v); the oracle demands coherent views after every ACCEPTED "
+    "assignment in the current width and an untouched object after every refused operation",
     "non-int / bool constructor arguments (value setter silently ignores other types)",
     "ByteFieldU8/U16/U32/U64.from_bytes inherited from the base class raises TypeError (cls(val, len) against a "
     "one-argument __init__); not an entry point the property names",
@@ -97,7 +101,89 @@ def impl(op, a):
     if op == 216:
         f = _mk(a[0])
         return [[int(U.UnsignedByteField.from_bytes(f.as_bytes) == f)]]
+    if op == 217:
+        f = _mk_any(a[0])
+        out = _obs_any(f)
+        kept = bytearray()            # the caller's buffer, re-used (and edited in place) across assignments
+        for o in a[1:]:
+            k = o[0]
+            try:
+                if k == 0:
+                    f.value = o[1]
+                elif k == 1:
+                    f.value = bytes(o[1:])
+                elif k in (2, 6):
+                    if k == 2:
+                        kept = bytearray(o[1:])
+                    elif list(kept) != o[1:]:
+                        raise RuntimeError("history op 6 does not carry the buffer's present content")
+                    try:
+                        f.value = kept
+                    finally:      # the caller re-uses its buffer: the field must not follow
+                        _scramble(kept)
+                elif k == 3:
+                    f.byte_len = o[1]
+                elif k == 4:
+                    f.value = f.value
+                elif k == 5:
+                    f.value = f.as_bytes
+                else:
+                    raise RuntimeError("bad history op")
+                st = [0]
+            except RuntimeError:
+                raise
+            except Exception as e:
+                st = [1, core.canon_code(core.classify_exception(e))]
+            out += [st] + _obs_any(f)
+        return out
     raise RuntimeError("bad op")
+
+
+def _scramble(buf):
+    for i in range(len(buf)):
+        buf[i] ^= 0xFF
+    buf.extend(b"\x5a")
+
+
+def scrambled(b):
+    """content of the caller's bytearray after the adapter has edited it in place"""
+    return [x ^ 0xFF for x in b] + [0x5A]
+
+
+def _mk_any(l):
+    """the initial object of a history through every construction path (l = [value, width, path])"""
+    v, w, kind = l[0], l[1], (l[2] if len(l) > 2 else 0)
+    if kind == 1 and w in (1, 2, 4, 8):
+        return U.ByteFieldGenerator.from_int(w, v)
+    if kind == 2:
+        return U.UnsignedByteField.from_bytes(bytes(be(w, v)))
+    if kind == 3 and w in (1, 2, 4, 8):
+        return U.ByteFieldGenerator.from_bytes(w, bytes(be(w, v)) + b"\xa5")
+    if kind == 4 and w == 0:
+        return U.ByteFieldEmpty()
+    if kind == 5:
+        buf = bytearray(be(w, v))
+        f = U.UnsignedByteField.from_bytes(buf)
+        _scramble(buf)
+        return f
+    return U.UnsignedByteField(v, w)
+
+
+def _obs_any(f):
+    """views of a live object plus the verdicts that need the object itself: equality with a freshly
+    built twin (both directions, !=, hash), hash key, equality with its own octets, rebuild from octets"""
+    o = _obs(f)
+    v, w = f.value, f.byte_len
+    hk = hash(f) == hash((v, w))
+    eqb = isinstance(f.as_bytes, bytes) and (f == f.as_bytes)
+    eq = rt = True
+    if isinstance(v, int) and valid(v, w) and list(f.as_bytes) == be(w, v):
+        twin = U.UnsignedByteField(v, w)
+        eq = (f == twin) and (twin == f) and not (f != twin) and hash(twin) == hash(f)
+        rt = U.UnsignedByteField.from_bytes(f.as_bytes) == f
+        if w in (1, 2, 4, 8):
+            rt = rt and U.ByteFieldGenerator.from_bytes(w, f.as_bytes) == f
+    return o + [[int(eq), int(hk), int(eqb), int(rt)]]
 
 
 # ---------------------------------------------------------------- independent reference
@@ -132,6 +218,48 @@ def bnd(w):
     good = sorted(x for x in good if 0 <= x < 2 ** bits)
     bad = [-1, -2, 2 ** bits, 2 ** bits + 1, 2 ** 64, 2 ** 64 + 1, -(2 ** 63), 2 ** 70]
     return good, [x for x in bad if not 0 <= x < 2 ** bits]
+
+
+def bad_ints(w, rng):
+    """integers a w-octet field must refuse: every magnitude 2^(8w+k), k = 0..80 (the power, the value below
+    the next power, a random one in between), and negatives of every magnitude"""
+    out = []
+    for k in range(0, 81):
+        lo = 2 ** (8 * w + k)
+        out += [lo, 2 * lo - 1, rng.randrange(lo, 2 * lo)]
+        if k % 8 == 0:
+            out += [lo + 1, -lo, -lo - 1]
+    out += [-1, -2, -255, -256]
+    return [x for x in out if not 0 <= x < 256 ** w]
+
+
+def _good_val(rng, w):
+    if w == 0:
+        return 0
+    r = rng.random()
+    if r < 0.5:
+        return rng.choice(bnd(w)[0])
+    return rng.randrange(256 ** w)
+
+
+def _rand_hop(rng, w):
+    """one random operation on a live field whose current width is w"""
+    k = rng.random()
+    if k < 0.17:
+        return [0, _good_val(rng, w)]
+    if k < 0.27:
+        return [0, rng.choice(bad_ints(w, rng))]
+    if k < 0.42:
+        return [rng.choice([1, 2])] + be(w, _good_val(rng, w)) + [rng.choice([0, 0x80, 0xFF, rng.randrange(256)]) for _ in range(rng.choice([0, 0, 1, 3, 9, 600]))]
+    if k < 0.50:
+        return [rng.choice([1, 2])] + [rng.randrange(256) for _ in range(rng.randrange(0, max(w, 1)))]
+    if k < 0.68:
+        return [3, rng.choice(WIDTHS)]
+    if k < 0.74:
+        return [3, rng.choice([-1, 3, 5, 6, 7, 9, 16, 64])]
+    if k < 0.88:
+        return [4]
+    return [5]
 
 
 def streams(tier, rng):
@@ -240,6 +368,65 @@ def streams(tier, rng):
                 ops.append([1] + [rng.randrange(256) for _ in range(rng.randrange(0, max(w, 1)))])
         cases.append((215, [[rng.choice(good), w]] + ops))
     yield "setter_histories", "exact", cases
+    # 6b. one live object through EVERY public setter (value by int / bytes / bytearray incl. longer buffers,
+    #     byte_len, re-assignment of the value it already holds), observed after every op, refused or not
+    cases = []
+    for _ in range(8000 if big else 1500):
+        w = rng.choice(WIDTHS)
+        ops = []
+        kept = None
+        for _ in range(rng.randrange(1, 11)):
+            if kept is not None and rng.random() < 0.2:
+                ops.append([6] + kept)
+            else:
+                ops.append(_rand_hop(rng, w))
+            if ops[-1][0] in (2, 6):
+                kept = scrambled(ops[-1][1:])
+            if ops[-1][0] == 3 and ops[-1][1] in WIDTHS:
+                w = ops[-1][1]
+        w0 = rng.choice(WIDTHS)
+        cases.append((217, [[_good_val(rng, w0), w0, rng.randrange(6)]] + ops))
+    yield "live_setter_histories", "exact", cases
+    # 6c. refusals, systematically: every width x every kind of refused operation (integers of every magnitude
+    #     above the limit and below zero, octet strings of every too-short length, every unsupported width),
+    #     followed by re-assignments: nothing may have changed
+    cases = []
+    for w in WIDTHS:
+        vals = [0] if w == 0 else [0, 1, 256 ** w - 1, 0x0102030405060708 % 256 ** w, rng.randrange(256 ** w)]
+        for bad in bad_ints(w, rng):
+            v0 = rng.choice(vals)
+            cases.append((217, [[v0, w, rng.randrange(6)], [0, bad], [rng.choice([4, 5])], [0, bad], [0, rng.choice(vals)]]))
+        for n in range(0, w):
+            v0 = rng.choice(vals)
+            b = [rng.randrange(256) for _ in range(n)]
+            cases.append((217, [[v0, w, rng.randrange(6)], [rng.choice([1, 2])] + b, [4], [5]]))
+        for bw in list(range(-2, 20)) + [32, 64, 255, 256, 2 ** 32, -8]:
+            if bw not in WIDTHS:
+                v0 = rng.choice(vals)
+                cases.append((217, [[v0, w, rng.randrange(6)], [3, bw], [4], [5], [0, v0]]))
+    yield "exh_refused_then_inspect", "exact", cases
+    # 6d. resize matrix: every (old width, new width) pair x boundary values x every way to (re-)assign afterwards
+    cases = []
+    for w1, w2 in itertools.product(WIDTHS, WIDTHS):
+        vals = [0] if w1 == 0 else sorted({0, 1, 5, 0x7F, 0x80, 0xFF, 0xBEEF % 256 ** w1, 256 ** w1 - 1, 2 ** (8 * w1 - 1), rng.randrange(256 ** w1)})
+        for v in vals:
+            other = _good_val(rng, w2)
+            same_new = [[1] + be(w2, v), [2] + be(w2, v) + [0xFF]] if valid(v, w2) else []   # the same number, octets of the new width
+            for follow in [[4], [5], [0, v], [0, other], [1] + be(w1, v), [1] + be(w2, other) + [9, 9], [2] + be(w2, other),
+                           [3, w1], [0, v ^ 1]] + same_new:
+                cases.append((217, [[v, w1, rng.randrange(6)], [3, w2], follow, [4], [0, v ^ 1], [0, v], [5]]))
+            b0 = be(w1, v) + [0x80, 0xFF] * 4
+            cases.append((217, [[v, w1, rng.randrange(6)], [2] + b0, [6] + scrambled(b0), [3, w2], [6] + scrambled(scrambled(b0)), [4]]))
+    yield "exh_resize_matrix", "exact", cases
+    # 6e. buffer sizes: every octet-string length 0..1100 (thorough 0..4200) at every entry point that takes octets
+    cases = []
+    for n in list(range(0, 4201 if big else 1101)) + [65535, 65536, 65537]:
+        b = [rng.choice([0, 0x80, 0xFF, rng.randrange(256)]) for _ in range(min(n, 9))] + [rng.randrange(256)] * max(n - 9, 0)
+        w = WIDTHS[n % 5]
+        cases += [(203, [b]), (205, [[(1, 2, 4, 8)[n % 4]], b]), (206 + n % 4, [b]),
+                  (202, [[0, w, rng.choice([0, 2])], b]),
+                  (217, [[_good_val(rng, w), w, 0], [1 + n % 2] + b, [5], [3, WIDTHS[(n // 5) % 5]], [1 + (n // 2) % 2] + b])]
+    yield "exh_buffer_sizes", "exact", cases
     # 7. conversion helpers: signed / unsigned boundaries for every width
     cases = []
     for n in (1, 2, 4, 8):
@@ -395,6 +582,8 @@ def oracle(case, ires, sres):
                     return ("C20/UnsignedByteField.value/range", "invalid assignment %s on width %d not refused with ValueError: %s" % (o, w, ires[pos:pos + 4]))
                 pos += 1
         return None
+    if op == 217:
+        return _oracle_live(a, ires)
     if op == 212:
         n, v = a[0]
         if n not in WIDTHS:
@@ -423,6 +612,76 @@ def oracle(case, ires, sres):
         if not -h <= v < h or ires[1] != exp or (sres and sres[0][1] != exp):
             return ("C20/IntByteConversion.to_signed/encoding", "to_signed(%d, %d) = %s, two's complement is %s" % (n, v, ires, exp))
         return None
+    return None
+
+
+def _oracle_live(a, ires):
+    """History on one live object.  The property on every step: an accepted assignment to `value` (by int or by
+    octets) leaves ALL views in step with the field's current width; a refused operation raises ValueError and
+    leaves every view exactly as it was; equality / hash / rebuild-from-octets verdicts hold whenever the object
+    is coherent.  The byte_len setter only re-declares the width (by design the octets follow at the next
+    assignment): after it the width views show the new width and value / octets are either untouched or already
+    re-encoded."""
+    v, w = a[0][0], a[0][1]
+    if core.is_err(ires):
+        return ("C20/UnsignedByteField.__init__/refuses-valid", "construction path %s of field (%d, %d) raised %s" % (a[0][2:], v, w, ires)) if valid(v, w) else None
+    if not valid(v, w):
+        return None
+    n_ops = len(a) - 1
+    if len(ires) != 1 + 4 + 5 * n_ops:
+        return ("C20/setter/history-shape", "result has %d lines for %d ops" % (len(ires), n_ops))
+    prev = ires[1:5]
+    m = _views_ok(prev, v, w)
+    if m:
+        return ("C20/UnsignedByteField.__init__/views", m)
+    if prev[3] != [1, 1, 1, 1]:
+        return ("C20/UnsignedByteField.__eq__/live-object", "fresh field (%d, %d): (== twin, hash key, == own octets, rebuild) = %s" % (v, w, prev[3]))
+    coherent = True
+    for i, o in enumerate(a[1:]):
+        st, obs = ires[5 + 5 * i], ires[6 + 5 * i:10 + 5 * i]
+        k = o[0]
+        cur_b = prev[1]
+        what = {0: "value = %s" % (o[1:2],), 1: "value = bytes(%s)" % (o[1:12],), 2: "value = bytearray(%s)" % (o[1:12],),
+                3: "byte_len = %s" % (o[1:2],), 4: "value = value", 5: "value = as_bytes",
+                6: "value = <the caller's re-used bytearray, now %s>" % (o[1:12],)}[k]
+        if k == 3:
+            if o[1] in WIDTHS:
+                if st != [0]:
+                    return ("C20/UnsignedByteField.byte_len/refuses-valid", "step %d: %s refused: %s" % (i, what, st))
+                if obs[0][1] != o[1] or obs[0][3] != o[1] or obs[0][0] != v or obs[0][2] != v:
+                    return ("C20/UnsignedByteField.byte_len/views", "step %d: after %s the width / value views are %s (value was %d)" % (i, what, obs[0], v))
+                w = o[1]
+                coherent = valid(v, w) and obs[1] == be(w, v)
+                if not coherent and obs[1] != cur_b:
+                    return ("C20/UnsignedByteField.byte_len/views", "step %d: after %s the octets changed to %s, neither the old ones nor the new encoding" % (i, what, obs[1]))
+                prev = obs
+                continue
+            ok = False
+        elif k in (0, 4):
+            nv = o[1] if k == 0 else v
+            ok = valid(nv, w)
+        else:
+            src = o[1:] if k in (1, 2, 6) else cur_b
+            ok = len(src) >= w
+            nv = be_dec(src[:w])
+        if ok:
+            if st != [0]:
+                return ("C20/UnsignedByteField.value/refuses-valid", "step %d: valid assignment %s refused on width %d: %s" % (i, what, w, st))
+            v = nv
+            m = _views_ok(obs, v, w)
+            if m:
+                return ("C20/UnsignedByteField.value/views", "step %d, after %s on a field of width %d: %s" % (i, what, w, m))
+            coherent = True
+        else:
+            if st[0] != 1 or st[1] not in VALUE_ERR:
+                return ("C20/UnsignedByteField.%s/range" % ("byte_len" if k == 3 else "value"),
+                        "step %d: invalid %s on width %d not refused with ValueError: %s" % (i, what, w, st))
+            if obs != prev:
+                return ("C20/UnsignedByteField.%s/refused-but-changed" % ("byte_len" if k == 3 else "value"),
+                        "step %d: %s was refused, yet the views changed from %s to %s" % (i, what, prev, obs))
+        if obs[3] != [1, 1, 1, 1]:
+            return ("C20/UnsignedByteField.__eq__/live-object", "step %d, after %s: (== twin, hash key, == own octets, rebuild) = %s for views %s" % (i, what, obs[3], obs[:2]))
+        prev = obs
     return None
 
 
